@@ -341,8 +341,8 @@ def build_units(tier: str) -> list[Unit]:
         if cls is None or cname not in iso.RESPONSES:
             continue
         for alts in c11.resp_alternatives(cls):
-            if "none" in alts.values():
-                continue
+            if "none" in alts.values() or "intlist" in alts.values():
+                continue  # the column does not depend on how the arguments were spelled
             tag = ",".join(f"{k}={v}" for k, v in alts.items())
             units.append(Unit(f"db/insert/response/{cname}/{tag}",
                               c11.insert_harness("response", cname, cls, alts),
